@@ -472,6 +472,16 @@ struct Extractor {
       p["id"] = (int64_t)did(P);
       p["name"] = P->getNameAsString();
       p["ty"] = tyStr(P->getType());
+      // the type as written (array parameters keep their `[static restrict N]` bound here)
+      QualType OT = P->getOriginalType();
+      if (const auto *AT = dyn_cast<ConstantArrayType>(OT.getTypePtr())) {
+        p["arraybound"] = (int64_t)AT->getSize().getZExtValue();
+        p["arraystatic"] = AT->getSizeModifier() == ArrayType::Static;
+        p["elemsize"] = (int64_t)C.getTypeSizeInChars(AT->getElementType()).getQuantity();
+      }
+      if (P->getType().isRestrictQualified() || OT.isRestrictQualified()) p["restrict"] = true;
+      if (const auto *AT2 = dyn_cast<ArrayType>(OT.getTypePtr()))
+        if (AT2->getIndexTypeQualifiers().hasRestrict()) p["restrict"] = true;
       ps.push_back(std::move(p));
     }
     fo["params"] = std::move(ps);
